@@ -120,6 +120,10 @@ func VerifC10FlattenStream(v *vrt.T) {
 	n, out, _ := c10NewFlatten(v, c, tol)
 	k := v.Bound("points", 3)
 	dims := models.Dimensions{TagNames: []string{"h"}}
+	batch := v.Choose("edge", 2) == 1
+	var begin edge.BeginBatchMessage
+	var bsnap c10Snap
+	var binputs []edge.BatchPointMessage
 
 	type emission struct {
 		t      int64
@@ -138,12 +142,26 @@ func VerifC10FlattenStream(v *vrt.T) {
 		}
 		fields, tags := c10FlatInput(v, i)
 		p := edge.NewPointMessage("m", "db", "rp", dims, fields, tags, time.Unix(0, ns).UTC())
-		inputs = append(inputs, p)
-		snaps = append(snaps, c10SnapPoint(p))
-		if b == nil {
-			var err error
-			b, err = n.NewGroup(p.GroupInfo(), p)
-			v.Assert(err == nil, "group created")
+		if batch {
+			if b == nil {
+				begin = edge.NewBeginBatchMessage("m", models.Tags{"h": "a"}, false, time.Unix(0, verifT2020+1000).UTC(), k)
+				bsnap = c10SnapBegin(begin)
+				var err error
+				b, err = n.NewGroup(begin.GroupInfo(), begin)
+				v.Assert(err == nil, "group created")
+				v.Assert(b.BeginBatch(begin) == nil, "no error")
+			}
+			bp := edge.NewBatchPointMessage(fields, tags, time.Unix(0, ns).UTC())
+			binputs = append(binputs, bp)
+			snaps = append(snaps, c10SnapBatchPoint(bp))
+		} else {
+			inputs = append(inputs, p)
+			snaps = append(snaps, c10SnapPoint(p))
+			if b == nil {
+				var err error
+				b, err = n.NewGroup(p.GroupInfo(), p)
+				v.Assert(err == nil, "group created")
+			}
 		}
 		rt := c10RoundRef(ns, int64(tol))
 		if have && rt != cur.t {
@@ -155,22 +173,50 @@ func VerifC10FlattenStream(v *vrt.T) {
 			have = true
 		}
 		c10FlatAdd(c, cur.fields, fields, tags)
-		v.Assert(b.Point(p) == nil, "no error")
+		if batch {
+			v.Assert(b.BatchPoint(binputs[i]) == nil, "no error")
+		} else {
+			v.Assert(b.Point(p) == nil, "no error")
+		}
 	}
 	if have {
 		want = append(want, cur)
 	}
-	// a barrier after the last time flushes the buffer
-	bar := edge.NewBarrierMessage(inputs[0].GroupInfo(), time.Unix(0, ns+100).UTC())
-	v.Assert(b.Barrier(bar) == nil, "no error")
-
-	for i, p := range inputs {
-		v.Assert(snaps[i].samePoint(p), "frame: input points unchanged")
+	type outPoint interface {
+		edge.FieldGetter
+		edge.TagGetter
+		edge.TimeGetter
 	}
-	var got []edge.PointMessage
-	for _, m := range out.msgs {
-		if p, ok := m.(edge.PointMessage); ok {
+	var got []outPoint
+	wantGID := models.ToGroupID("m", map[string]string{"h": "a"}, dims)
+	if batch {
+		end := edge.NewEndBatchMessage()
+		v.Assert(b.EndBatch(end) == nil, "no error")
+		v.Assert(bsnap.sameBegin(begin), "frame: input begin message unchanged")
+		for i, p := range binputs {
+			v.Assert(snaps[i].sameBatchPoint(p), "frame: input batch points unchanged")
+		}
+		v.Assert(len(out.msgs) >= 2, "begin and end forwarded")
+		ob, ok := out.msgs[0].(edge.BeginBatchMessage)
+		v.Assert(ok && ob.Name() == "m" && c10TagsEq(ob.Tags(), bsnap.tags) && ob.Time().Equal(bsnap.t) && ob.GroupID() == bsnap.gid, "begin keeps name, tags, end time, group")
+		v.Assert(out.msgs[len(out.msgs)-1] == edge.Message(end), "end forwarded last")
+		for _, m := range out.msgs[1 : len(out.msgs)-1] {
+			p, ok := m.(edge.BatchPointMessage)
+			v.Assert(ok, "batch points between begin and end")
 			got = append(got, p)
+		}
+	} else {
+		// a barrier after the last time flushes the buffer
+		bar := edge.NewBarrierMessage(inputs[0].GroupInfo(), time.Unix(0, ns+100).UTC())
+		v.Assert(b.Barrier(bar) == nil, "no error")
+		for i, p := range inputs {
+			v.Assert(snaps[i].samePoint(p), "frame: input points unchanged")
+		}
+		for _, m := range out.msgs {
+			if p, ok := m.(edge.PointMessage); ok {
+				v.Assert(p.Name() == "m" && c10DimsEq(p.Dimensions(), false, dims.TagNames) && p.GroupID() == wantGID, "emitted point carries the group's name and dimensions")
+				got = append(got, p)
+			}
 		}
 	}
 	v.Observe("emitted", len(got))
@@ -190,7 +236,7 @@ func VerifC10FlattenStream(v *vrt.T) {
 		gi++
 		v.Assert(p.Time().UnixNano() == e.t, "emitted point carries the rounded time")
 		v.Assert(c10FieldsEq(p.Fields(), e.fields), "emitted fields = flattened fields of the points of that time")
-		v.Assert(p.Name() == "m" && c10TagsEq(p.Tags(), map[string]string{"h": "a"}) && c10DimsEq(p.Dimensions(), false, dims.TagNames) && p.GroupID() == snaps[0].gid, "emitted point carries the group's name, tags, dimensions")
+		v.Assert(c10TagsEq(p.Tags(), map[string]string{"h": "a"}), "emitted point carries the group's tags")
 	}
 	v.Assert(gi == len(got), "nothing else is emitted")
 	v.Reach("end")
